@@ -27,7 +27,8 @@ namespace DD
 
 def reviewedUncovered : List (Backend × String × String) := []
 
-def knownArrayLeaks : List (Backend × String) := [(.cudd, "BDD._multi_compose")]
+/-- (back end, function, the exception that ends the path) -/
+def knownArrayLeaks : List (Backend × String × String) := [(.cudd, "BDD._multi_compose", "ValueError")]
 
 def reviewedDeadAssertions : List (Backend × String) :=
   [(.cuddZdd, "_c_compose"), (.cuddZdd, "_compose_root"), (.cuddZdd, "_compose")]
